@@ -7,12 +7,15 @@
 package runtime
 
 import (
+	"context"
+
 	"github.com/cosi-project/runtime/pkg/controller/runtime/internal/cache"
 	"github.com/cosi-project/runtime/pkg/controller/runtime/internal/dependency"
 	"github.com/cosi-project/runtime/pkg/controller/runtime/internal/qruntime"
 	"github.com/cosi-project/runtime/pkg/controller/runtime/internal/reduced"
 	"github.com/cosi-project/runtime/pkg/controller/runtime/options"
 	"github.com/cosi-project/runtime/pkg/resource"
+	"github.com/cosi-project/runtime/pkg/state"
 )
 
 // Verification-only re-exports of internal packages (build tag verif).
@@ -56,3 +59,31 @@ func VerifNewReducedMetadata(md *resource.Metadata) VerifReducedMetadata { retur
 
 // VerifFilterDestroyReady re-exports reduced.FilterDestroyReady.
 func VerifFilterDestroyReady(md *VerifReducedMetadata) bool { return reduced.FilterDestroyReady(md) }
+
+// VerifDedup re-exports the deduplication map handed between the two event goroutines of processWatched.
+type VerifDedup = dedup
+
+// VerifReducedKey re-exports reduced.Key.
+type VerifReducedKey = reduced.Key
+
+// VerifReducedValue re-exports reduced.Value.
+type VerifReducedValue = reduced.Value
+
+// VerifSetRunCtx sets the run context of a runtime which is driven piecewise (Run is never called).
+func (runtime *Runtime) VerifSetRunCtx(ctx context.Context) { runtime.runCtx = ctx }
+
+// VerifWatchCh returns the channel the watches deliver event batches to.
+func (runtime *Runtime) VerifWatchCh() chan []state.Event { return runtime.watchCh }
+
+// VerifWatchErrors returns the channel watch failures are reported on.
+func (runtime *Runtime) VerifWatchErrors() chan error { return runtime.watchErrors }
+
+// VerifDeduplicateWatchEvents runs the first goroutine of processWatched on caller-owned channels.
+func (runtime *Runtime) VerifDeduplicateWatchEvents(ch, empty chan VerifDedup) {
+	runtime.deduplicateWatchEvents(ch, empty)
+}
+
+// VerifDeliverDeduplicatedEvents runs the second goroutine of processWatched on caller-owned channels.
+func (runtime *Runtime) VerifDeliverDeduplicatedEvents(ch, empty chan VerifDedup) {
+	runtime.deliverDeduplicatedEvents(ch, empty)
+}
